@@ -429,7 +429,7 @@ impl SuffixArrayBuilder {
         let alphabet_size = if self.config.optimize_small_alphabet {
             256 // Full byte alphabet
         } else {
-            text.iter().max().unwrap_or(&0).wrapping_add(1) as usize
+            *text.iter().max().unwrap_or(&0) as usize + 1
         };
 
         // Step 1: Classify suffixes as L-type or S-type
